@@ -29,6 +29,12 @@ def task_reader(pr, repo, tag):
                          keep_protons_cases=(False, True) if tag == 'ATOM  ' else (False,), what='C01 record step')
 
 
+# the decision table below is written with the historical class names; what is compared is the group TYPE the classifier assigns
+TYPE_TO_CLASSNAME = {'NAR': 'NARGroup', 'NAM': 'NAMGroup', 'N30': 'N30Group', 'N31': 'N31Group', 'N32': 'N32Group', 'N33': 'N33Group',
+                     'N1': 'N1Group', 'F': 'FGroup', 'Cl': 'ClGroup', 'O2': 'O2Group', 'O3': 'O3Group', 'OH': 'OHGroup', 'SH': 'SHGroup',
+                     'OP': 'OPGroup', 'C2N': 'C2NGroup', 'CG': 'CGGroup', 'OCO': 'OCOGroup', 'NP1': 'NP1Group'}
+
+
 def mkatom(repo, **kw):
     A = repo.cls('propka.atom.Atom')
     d = dict(type='atom', terminal=None, name='CA', res_name='ALA', bonded_atoms=[], sybyl_type='', group=None,
@@ -107,7 +113,7 @@ def task_classify(pr, repo):
         nb = [mkatom(repo, element='C', name='C%d' % i, sybyl_type='C.3') for i in range(heavy)]
         at = mkatom(repo, type='hetatm', res_name='LIG', name='X1', sybyl_type=sybyl, bonded_atoms=nb + list(extra or []), element=element)
         g = ex.call_function(repo.func(GM + 'is_ligand_group_by_groups'), [params, at])
-        return g.cls.name if isinstance(g, Obj) else None
+        return TYPE_TO_CLASSNAME.get(g.attrs.get('type'), g.attrs.get('type')) if isinstance(g, Obj) else None
 
     def t_lig(ex, ctx):
         H = lambda: mkatom(repo, element='H', name='H')     # noqa
@@ -126,7 +132,7 @@ def task_classify(pr, repo):
         pat = mkatom(repo, element='P', name='P')
         at = mkatom(repo, type='hetatm', sybyl_type='O.3', bonded_atoms=[pat], element='O')
         g = ex.call_function(repo.func(GM + 'is_ligand_group_by_groups'), [params, at])
-        if not (isinstance(g, Obj) and g.cls.name == 'OPGroup'):
+        if not (isinstance(g, Obj) and g.attrs.get('type') == 'OP'):
             bad.append(('O.3-P', g))
         # carboxyl, amidinium, guanidinium carbon
         def npl(n_heavy_extra=0):
@@ -141,19 +147,19 @@ def task_classify(pr, repo):
             if nn == 3:
                 ns[2].attrs['bonded_atoms'].insert(1, mkatom(repo, element='C'))     # the substituted nitrogen
             g = ex.call_function(repo.func(GM + 'is_ligand_group_by_groups'), [params, c])
-            if not (isinstance(g, Obj) and g.cls.name == want):
-                bad.append(('C.2 with %d N.pl3' % nn, g.cls.name if isinstance(g, Obj) else g, want))
+            if not (isinstance(g, Obj) and TYPE_TO_CLASSNAME.get(g.attrs.get('type')) == want):
+                bad.append(('C.2 with %d N.pl3' % nn, g.attrs.get('type') if isinstance(g, Obj) else g, want))
         os_ = [mkatom(repo, element='O', sybyl_type='O.co2') for _ in range(2)]
         c = mkatom(repo, type='hetatm', sybyl_type='C.2', element='C', bonded_atoms=os_)
         g = ex.call_function(repo.func(GM + 'is_ligand_group_by_groups'), [params, c])
-        if not (isinstance(g, Obj) and g.cls.name == 'OCOGroup'):
+        if not (isinstance(g, Obj) and g.attrs.get('type') == 'OCO'):
             bad.append(('carboxyl', g))
         # N.pl3 with one carbon that has only this nitrogen
         cc = mkatom(repo, element='C')
         n = mkatom(repo, type='hetatm', sybyl_type='N.pl3', element='N', bonded_atoms=[cc])
         cc.attrs['bonded_atoms'] = [n]
         g = ex.call_function(repo.func(GM + 'is_ligand_group_by_groups'), [params, n])
-        if not (isinstance(g, Obj) and g.cls.name == 'NP1Group'):
+        if not (isinstance(g, Obj) and g.attrs.get('type') == 'NP1'):
             bad.append(('NP1', g))
         at = mkatom(repo, type='atom', sybyl_type='N.3')
         if ex.call_function(repo.func(GM + 'is_ligand_group_by_groups'), [params, at]) is not None:
